@@ -87,6 +87,8 @@ def gen_project(rng, wildcard=0.0, missing_import=0.0):
             t = use(pick_type(rng, others, allow_prim=False))
             if t:
                 ext = t
+        elif kind == "class" and rng.random() < 0.15:
+            ext = rng.choice(["RuntimeException", "Exception", "Thread"])      # a java.lang supertype: not imported, not of the project
         if rng.random() < 0.3:
             t = use(pick_type(rng, others, allow_prim=False))
             if t and t != ext:
@@ -189,8 +191,15 @@ def gen_project(rng, wildcard=0.0, missing_import=0.0):
                         {"name": "GetMapping", "args": '"/g"'}, {"name": "PostMapping", "args": [("value", '"/p"')]},
                         {"name": "RequestMapping", "args": [("value", '"/r"'), ("method", "RequestMethod.PUT")]},
                         {"name": "DeleteMapping", "args": None}])]
+        late_fields = []
+        if kind == "class" and members and rng.random() < 0.2:
+            # a field with an initialiser declared AFTER the methods: its creation / call belongs to no method
+            t = use(pick_type(rng, others, allow_prim=False))
+            if t:
+                late_fields.append({"mods": ["private"], "type": t, "name": "late%d" % len(units),
+                                    "init": rng.choice([("new", t, []), ("call", ("name", t), rng.choice(METHODS), [])]), "decl": t})
         units.append({"pkg": pk, "imports": imports, "annos": class_annos, "kind": kind, "name": nm, "ext": ext, "impls": impls,
-                      "fields": fields, "members": members, "_scope": dict(scope)})
+                      "fields": fields, "late_fields": late_fields, "members": members, "_scope": dict(scope)})
     return units
 
 
@@ -366,6 +375,14 @@ def strip_fns(fns):
     return out
 
 
+def view_det(o):
+    """run-to-run comparison (C08): the code model and, for trees that went through the commands, the rows of `coca count`"""
+    v = view(o)
+    if isinstance(o, dict) and "countRows" in o and isinstance(v, dict):
+        v = dict(v, countRows=o["countRows"])
+    return v
+
+
 def view(o):
     if isinstance(o, dict) and "nodes" in o:
         return {"nodes": o["nodes"], "identifiers": o.get("identifiers", [])}
@@ -522,6 +539,7 @@ def make(prop):
     m.PROPS = [prop] + (["C01Ident"] if prop in ("C01", "C07") else []) + (["C01Iface"] if prop == "C01" else [])
     m.gen = gen_c07 if prop == "C07" else gen
     m.view = view
+    m.view_det = view_det
     m.nontrivial = nontrivial
     m.features = features
     m.oracle = {"C01": oracle_c01, "C02": oracle_c02, "C07": oracle_c07}.get(prop, lambda case, out, raw: [("panic", "full pass panicked at %s: %s" % ((raw or {}).get("site"), (raw or {}).get("panic")))] if (out is None or "panic" in out) else [])
